@@ -11,7 +11,7 @@ from core import err_kind
 
 ID = "C07"
 MODEL_OP = "frame (which payloads a result shares with its source; which objects a step may change)"
-RULE = ("roots: a cube (1-4 dims; probe / FITS separable, celestial, rotated / RA-DEC / gWCS; mask absent / array; uncertainty "
+RULE = ("roots: a cube (1-4 dims; probe / FITS separable, celestial, rotated / RA-DEC / gWCS; mask absent / array / array that masks nothing; uncertainty "
         "absent / StdDev / Variance / Unknown; unit; Quantity, Time, 1-D / meshed / 2-D SkyCoord extra coords; optionally already "
         "sliced or rebinned), a sequence of 2-3 cubes with a common axis, or a collection of 2 aligned cubes; histories of up to 6 "
         "operations, each applied to any object made so far: slice, crop, rebin (with uncertainty propagation), + - * / ** unary -, "
@@ -42,7 +42,7 @@ def generate(rng, tier):
             fam = "fits_sep"
         ecs, shape = E.gen_layout(rng, nd, shape, n_ecs=rng.choice([0, 1, 1, 2]), allow_wcs=False)
         yield {"root": root, "shape": shape, "fam": fam, "wseed": rng.randrange(10**6), "ecs": ecs,
-               "mask": rng.random() < 0.5, "unc": rng.choice([None, "std", "std", "var", "unknown"]),
+               "mask": rng.choice([False, False, True, True, "allfalse"]), "unc": rng.choice([None, "std", "std", "var", "unknown"]),
                "unit": rng.choice([None, "ct", "ct"]), "pre": rng.choice([None, None, "slice", "rebin"]),
                "nsteps": rng.choice([2, 3, 4, 5, 6, 6]), "seed": rng.randrange(10**6), "nans": rng.random() < 0.3}
 
@@ -64,7 +64,7 @@ def make_cube(case, k=0, shape=None):
     if case.get("nans") and n > 2:
         payload.flat[1::5] = np.nan          # not the first element of the array, several blocks
     cube = NDCube(payload, wcs=wcs, unit=case["unit"],
-                  mask=(np.arange(n).reshape(shape) % 3 == 0) if case["mask"] else None,
+                  mask=np.zeros(shape, dtype=bool) if case["mask"] == "allfalse" else ((np.arange(n).reshape(shape) % 3 == 0) if case["mask"] else None),
                   uncertainty=None if unc is None else unc((np.arange(n, dtype=float).reshape(shape) % 4 + 1) * 0.5),
                   meta={"cube": k, "nested": {"a": [1, 2]}})
     E.add_ecs(cube, case["ecs"], shape, voff=50.0 * k)
@@ -166,7 +166,7 @@ def cube_ops(c, rng, case):
     ops = []
     if nd >= 1 and all(s > 0 for s in shape):
         chain = E.gen_chain(rng, shape, 1)
-        ops.append(("slice", "slice", lambda: c[C.to_py_index(chain[0])]))
+        ops.append(("slice", "slice", lambda: c[C.to_py_index(chain[0], npint=C.npint_of(case))]))
     divs = [[d for d in (1, 2, 3, 4) if s % d == 0] for s in shape]
     bins = [rng.choice(d) for d in divs]
     multi = any(len(t[0]) > 1 if isinstance(t[0], tuple) else False for t in getattr(c.extra_coords, "_lookup_tables", []))
@@ -177,7 +177,8 @@ def cube_ops(c, rng, case):
         rebin_op = ("rebin", "rebin", lambda: c.rebin(bins, operation=oper, propagate_uncertainties=prop))
         # in-place bookkeeping of the uncertainty propagation is where rebin could reach its source:
         # give that combination more weight
-        ops += [rebin_op] * (4 if (prop and has_nan) else 1)
+        nothing_masked = c.mask is not None and not isinstance(c.mask, bool) and not np.asarray(c.mask).any()
+        ops += [rebin_op] * (4 if (prop and (has_nan or nothing_masked)) else 1)
     k = rng.choice([2, -3, 0.5])
     ar = rng.choice(["mul", "neg", "div", "addq", "pow", "to"])
     if ar == "mul":
